@@ -374,13 +374,24 @@ func runTransmit(t *testing.T, p *Plan) *Outcome {
 		// sender is held beyond the last operation
 		drv.Run(us(last) + time.Microsecond)
 		gate.Close()
-		// run long enough for every retry (<= 60s Retry-After is never honoured, so 2x timeout + sleeps)
-		drv.Run(us(last) + 2*us(p.N["send_timeout_us"]) + 5*time.Second + 2*bt)
+		// run long enough for every retry (<= 60s Retry-After is never honoured, so 2x
+		// timeout + sleeps) - of every request one sendBatch or one Stop may make one
+		// after the other: a batch over 5 MB goes out as several requests, and Stop
+		// flushes the destinations in turn
+		big := 0
+		for _, op := range p.Ops {
+			if op.K == "ev" && op.N >= 400_000 {
+				big++
+			}
+		}
+		seq := time.Duration(big/4 + len(txDests) + 2)
+		patience := seq*(2*us(p.N["send_timeout_us"])+3*time.Second) + 5*time.Second
+		drv.Run(us(last) + patience + 2*bt)
 		if !stopped {
 			stopAt = time.Now()
 			done := make(chan struct{})
 			go func() { tx.Stop(); close(done) }()
-			drv.Run(drv.Elapsed() + 2*us(p.N["send_timeout_us"]) + 5*time.Second)
+			drv.Run(drv.Elapsed() + patience)
 			select {
 			case <-done:
 			default:
